@@ -148,6 +148,7 @@ EXTRA = {
     'dec_ge': '=COUNTIFS(A1:A3,">=4.56")', 'dec_le': '=SUMIFS(B1:B3,A1:A3,"<=4.69")', 'dec_eq': '=COUNTIFS(A1:A3,"=1.14")', 'dec_ne': '=SUMIF(A1:A3,"<>0.3",B1:B3)',
     'dec_gt': '=COUNTIFS(A1:A3,">1.05")', 'dec_lt_neg': '=COUNTIFS(A1:A3,"<-2.5")', 'dec_bare': '=COUNTIFS(A1:A3,4.56)',
     'neg_lt': '=COUNTIFS(A1:A3,"<-2")', 'neg_ge': '=SUMIFS(B1:B3,A1:A3,">=-2")', 'neg_eq': '=COUNTIFS(A1:A3,"=-2")', 'neg_ne': '=SUMIF(A1:A3,"<>-2",B1:B3)', 'neg_bare': '=COUNTIFS(A1:A3,-2)',
+    'catnum_gt': '=COUNTIFS(A1:A3,">1"&C1)', 'catnum_sumif': '=SUMIF(A1:A3,"<=2"&C1,B1:B3)', 'cattext_eq': '=COUNTIFS(A1:A3,"a"&C1)',
     'zero_lead_gt': '=COUNTIFS(A1:A3,">02")', 'zero_lead_eq': '=SUMIFS(B1:B3,A1:A3,"=02")', 'exp_gt': '=COUNTIFS(A1:A3,">1e1")',
 }
 DEC_MENU = [4.56, 4.55, 4.57, 1.14, 1.13, 4.69, 4.7, 0.3, 0.29, 1.05, 1.5, -2.5, -2.51, 0]
@@ -265,6 +266,20 @@ def run(report, tier, seed):
             vs = [a1, a2, a3]
             return outcome(lambda: ev(('{nm}', ''), A1=a1, A2=a2, A3=a3, B1=b1, B2=b2, B3=b3)) == ('val', {exp})
         ''', encodes=enc, requires=f"('{nm}', '') in K")
+    # a criterion assembled from a literal that already carries a number / a text and a cell: ">1"&C1 is the criterion ">1<C1>"
+    s.add('assembled_number_prefix_gt', 'a1: int, a2: int, a3: int, c1: int', '0 <= c1 <= 99', '''
+        thr = int('1' + str(c1))
+        return outcome(lambda: ev(('catnum_gt', ''), A1=a1, A2=a2, A3=a3, C1=c1)) == ('val', len([v for v in [a1, a2, a3] if v > thr]))
+    ''', encodes=enc, requires="('catnum_gt', '') in K")
+    s.add('assembled_number_prefix_le_sumif', 'a1: int, a2: int, a3: int, b1: int, b2: int, b3: int, c1: int', '0 <= c1 <= 99', '''
+        thr = int('2' + str(c1))
+        return outcome(lambda: ev(('catnum_sumif', ''), A1=a1, A2=a2, A3=a3, B1=b1, B2=b2, B3=b3, C1=c1)) == ('val', sum(b for v, b in zip([a1, a2, a3], [b1, b2, b3]) if v <= thr))
+    ''', encodes=enc, requires="('catnum_sumif', '') in K")
+    s.add('assembled_text_prefix_eq', 'a1: str, c1: int', "len(a1) <= 2 and all(ch in 'aA12' for ch in a1) and 0 <= c1 <= 9", '''
+        a1 = realize(a1)
+        want = ('a' + str(c1)).lower()
+        return outcome(lambda: ev(('cattext_eq', ''), A1=a1, A2='zz', A3=7, C1=c1)) == ('val', 1 if a1.lower() == want else 0)
+    ''', encodes=enc, requires="('cattext_eq', '') in K")
     report.bound('3-row criteria column (cells Union[int, str]: len<=1 for numeric criterion forms, one symbolic cell with str len<=3 over abA (text and simple wildcard forms) or over ab*?. (forms with several wildcard runs, escapes, a regex-special character), realised early (the solver enumerates the 40 / 156 texts)), 3-row int target column, criterion cell int; criterion forms: '
                  f'{len(forms)} (x 4 functions) + 24 structural shapes (2 pairs, target derivation, misaligned ranges incl. row/rectangle layouts, whole-column ranges over columns of different fill, decimal thresholds on a 14-value menu)')
     report.assume('three-valued accept predicate: blank/boolean cells and wildcard matches that differ between the case-sensitive and case-insensitive '
